@@ -15,6 +15,7 @@ import PgProofs.Hyper
 import PgProofs.HyperEnum
 import PgProofs.HyperDist
 import PgProofs.HyperSound
+import PgProofs.HyperBound
 namespace Pg.C13
 
 /-! ## Decode -/
@@ -184,6 +185,65 @@ example : encode noFilter tTwoFloats (.node (.dict ["a", "b"]) [.const (.flt ⟨
     .error .value := by rfl      -- the int 1 is not a float: rejected, as `Float.encode` does
 example : ∃ d, encode noFilter tNestedSound (.node .list [.const (.flt ⟨2, 0⟩), .const (.int 7)]) = .ok d ∧
     validG (dnaSpec noFilter tNestedSound) d = true := ⟨_, rfl, by decide⟩
+
+/-! ## Bound value specs -/
+
+/-- "Accepted by any value spec the placeholders were bound to", for bounded numeric field specs
+(`pg.typing.Float / Int (min_value, max_value)`, either bound optional, bounds of 0 included): if the
+field accepted the template at binding time (`okB`: a number within the bounds, a `floatv` whose
+range is within the bounds, a `oneof` of accepted candidates), it accepts every decoded value —
+for every filter (a filtered-out placeholder left in place is still accepted). -/
+theorem C13_bound_spec_accepts (W : Nat → Bool) (b : Bound) (t : Tmpl) (d : DNA) (v : Tmpl)
+    (hwf : wfT t = true) (hok : okB b t = true) (hdec : decode W t d = .ok v) : okB b v = true :=
+  okB_shape W b t v hok (DsD_all W t hwf d v hdec).2
+
+/-- Without a filter the accepted decoded value is a number within the bounds. -/
+theorem C13_bound_spec_number (b : Bound) (t : Tmpl) (d : DNA) (v : Tmpl)
+    (hwf : wfT t = true) (hok : okB b t = true) (hdec : decode noFilter t d = .ok v) :
+    ∃ a x, v = .const a ∧ a.num? = some x ∧ b.has x = true := by
+  have h1 := okB_shape noFilter b t v hok (DsD_all noFilter t hwf d v hdec).2
+  have h2 := (DsD_all noFilter t hwf d v hdec).1
+  cases v with
+  | const a =>
+    simp only [okB] at h1
+    cases ha : a.num? with
+    | none => simp [ha] at h1
+    | some x => exact ⟨a, x, rfl, ha, by simpa [ha] using h1⟩
+  | node l vs => simp [okB] at h1
+  | choice tag one k cs ds so => simp [detT, noFilter] at h2
+  | floatv tag lo hi => simp [detT, noFilter] at h2
+
+/-- A `floatv` that straddles a zero bound is *not* accepted (what `Float.custom_apply` must refuse;
+the seeded regression `if float_spec.min_value and …` accepts it). -/
+example : okB ⟨some ⟨0, 0⟩, none⟩ (.floatv 1 ⟨-1, 0⟩ ⟨1, 0⟩) = false := by decide
+example : okB ⟨some ⟨0, 0⟩, none⟩ (.choice 2 true 1 [.floatv 1 ⟨0, 0⟩ ⟨1, 0⟩, .const (.flt ⟨3, 1⟩)] true false) = true := by
+  decide
+
+/-! ## Two-stage decoding -/
+
+/-- A value decoded under a filter is a well-formed template again, and decoding *it* (no filter)
+with any DNA valid for its own spec succeeds, leaves no placeholder, and stays within the shape of
+the **original** template. (On the code this requires that the partially decoded value carries
+no state computed from the placeholders it no longer contains; the harness compares the dna_spec
+of the partial value with the model's and with an equal value constructed from scratch.) -/
+theorem C13_two_stage (W : Nat → Bool) (t : Tmpl) (d₁ d₂ : DNA) (v : Tmpl)
+    (hwf : wfT t = true) (h₁ : decode W t d₁ = .ok v)
+    (hv₂ : validG (dnaSpec noFilter v) d₂ = true) :
+    wfT v = true ∧ ∃ v₂, decode noFilter v d₂ = .ok v₂ ∧ detT noFilter v₂ = true ∧
+      shapeT noFilter v v₂ = true ∧ shapeT noFilter t v₂ = true := by
+  have hs := (DsD_all W t hwf d₁ v h₁).2
+  have hwfv := wfT_shape W t v hwf hs
+  obtain ⟨v₂, hdec₂, hdet, hsh⟩ := C13_decode_total noFilter v d₂ hwfv hv₂
+  exact ⟨hwfv, v₂, hdec₂, hdet, hsh, shape_comp W t v v₂ hs hsh⟩
+
+/-- `Dict(x=oneof([oneof([1, 2], tag 2), 3], tag 1))`, first stage selects the inner choice only:
+the partial value is `oneof([2, 3])` with a space of 2 points (the seeded regression kept 3). -/
+example : decode (fun tag => tag == 2)
+      (.choice 1 true 1 [.choice 2 true 1 [.const (.int 1), .const (.int 2)] true false, .const (.int 3)] true false)
+      (.mk (some (.idx 1)) []) =
+    .ok (.choice 1 true 1 [.const (.int 2), .const (.int 3)] true false) := by rfl
+example : sizeG (dnaSpec noFilter (.choice 1 true 1 [.const (.int 2), .const (.int 3)] true false)) = some 2 := by
+  decide
 
 /-! ## Non-vacuity -/
 
